@@ -127,7 +127,8 @@ PROPS = {
             "gossip / periodic announce / broadcast targets are active listed members, hence not the own address": "theorem (full given the invariant): chosen_targets_are_active_members, chosen_targets_not_own_address",
             "invariant: no active record bears the own address": "theorem (full, every reachable state under documented change_identity use): C19H.chosen_targets_never_own_address_always discharges the hypothesis of chosen_targets_not_own_address in every such state; per update: own_inactive_preserved, own_address_updates_become_down",
             "probes": "theorem (full, every reachable state, every reshuffle): C19H.probe_target_never_own_address_always, C19H.probed_member_never_own_address_always",
-            "replies": "theorem per call: replies_go_to_the_sender (the reaction to any message sends at most one datagram, back to the sender or, for the two relay legs, to the target the peer named), C19H.no_reply_to_own_address (data from the own address is refused before anything happens), C09.dead_sender_payload_is_discarded / inactiveSender (TurnUndead back to the sender); there is no single effect-level whole-history statement tying them together",
+            "replies": "theorem per call: replies_go_to_the_sender (the reaction to any message sends at most one datagram, back to the sender or, for the two relay legs, to the target the peer named), C19H.no_reply_to_own_address (data from the own address is refused before anything happens), C09.dead_sender_payload_is_discarded / inactiveSender (TurnUndead back to the sender)",
+            "every datagram of every call, over whole histories": "theorem (full): C19H.datagrams_avoid_own_address — in every state reachable with change_identity used as documented, every datagram any further call sends (any input, bytes, timer, RNG draws; probes, indirect-probe requests, gossip, broadcasts, periodic announces incl. those to Down members, feeds, direct replies, TurnUndead notices, the gossip of an identity change) goes to an address other than the instance's own, except destinations the call's input named itself (C19H.namedByInput: announce(dst), the target of a relayed PingReq/IndirectAck, the member of a delivered suspicion timer); C19H.suspicion_timers_name_other_addresses (the suspicion timers foca schedules never name the own address, so with timers delivered as scheduled the last exemption is empty); step: C19H.datagrams_avoid_own_address_step; Proofs/InvE.lean (PresE: invariants over state and effects with side conditions), Proofs/SendInv.lean (SendInv, the walk over every function, changeIdentity_other for the new address)",
         },
         RULE_HIST + "search: destination of every send compared with the instance's address on histories that teach it older/newer identities of its own address, all periodic tasks enabled.",
         ["relays towards a target named by a peer (IndirectPing, ForwardedAck) and explicit announce(dst) are outside the guarantee",
@@ -153,7 +154,7 @@ PROPS = {
             "set_config cannot change probe timing nor enable a periodic task": "theorem (full, over the generated guard): set_config_cannot_enable_loops",
             "Timer ordering helper: SendIndirectProbe before ProbeRandomMember, injective on kinds": "theorem (full, over the generated Timer::seq): indirect_sorts_before_probe, seq_separates_kinds",
             "exactly one outstanding probe timer and one per enabled periodic task while active, none effective otherwise (whole histories)": "theorem (full for all four loops; timers delivered exactly once, in any order, interleaved with any calls including set_config; assumptions as in the property: the u8 token does not wrap onto an outstanding timer [FreshFor, fewer than 256 epoch changes per call], no send of a probe round fails with Encode): C13H.exactly_one_timer_per_loop over C13H.LoopHistory, corollaries exactly_one_probe_timer, exactly_one_timer_per_enabled_task; steps loop_step_other, loop_step_probe, loop_step_periodic; Proofs/Timers.lean (TimInv per loop kind with a ghost epoch counter in the model state; probeRandomMember_rearms, periodic*_round), Proofs/Quiet.lean",
-            "no error under deadline-order delivery": "theorem (full for the probe timer, modulo the time model): C13H.outstanding_probe_timer_errors — delivering a probe timer the instance scheduled returns Ok, the Encode error of a send, or IncompleteProbeCycle, the latter only when the previous round still has a target whose SendIndirectProbe timer was not delivered (probe.validate = false), never NotConnected; Timers.probeRandomMember_valid_err; that deadline order implies the SendIndirectProbe timer (probe_rtt < probe_period) was delivered first is the runtime's side and is explored by search (timer queue simulation); periodic timers never return an error other than a send's Encode (loop_step_periodic covers every outcome)",
+            "no error under deadline-order delivery": "theorem (full): C13H.deadline_order_never_errs — at any point of any C13H.TimedHistory (timers carry the time they are due = time of the scheduling call + the delay foca asked for; the runtime always delivers one that is due no later than any other outstanding one, however late and at arbitrary times, interleaved with any datagrams and API calls; probe_rtt < probe_period whenever a probe round starts; FreshFor / fewer than 256 epoch changes per call) the delivered timer returns Ok or the Encode error of a send, never NotConnected or IncompleteProbeCycle. Invariant C13H.TInv over timed histories (TimedHistory.inv): while the probe cycle is incomplete the SendIndirectProbe timer of the round is outstanding and due strictly before every effective probe timer (StageB), a probe with a target is held only while connected (TargetOk), plus the one-effective-timer accounting; steps tinv_step_other, tinv_fire_probe. Proofs/Stage.lean: stage_step_other (what any other call can do to target, reached-flag, token, connection state: StageSince, via the probe-aware leaves LeavesP of ComposeC), indirect_timer_completes_stage, probeRandomMember_shape (the only probe timer of a round is its last effect, due after probe_period; a new target comes with its SendIndirectProbe timer due after probe_rtt); Proofs/ErrKinds.lean: ErrOnly.handleTimer_other (every other timer kind fails only with a send's Encode). Out of order: C13H.outstanding_probe_timer_errors — at most IncompleteProbeCycle, and the loop is re-armed (loop_step_probe)",
         },
         RULE_HIST + "search: histories in which every timer the instance schedules is delivered exactly once (in deadline order or in random order), interleaved with datagrams and API calls; outstanding timers per epoch counted after every call.",
         ["the runtime delivers each scheduled timer exactly once; fewer than 256 epoch changes between issue and delivery", "FitsAllHeaders (an Encode error in probe_random_member loses the probe loop: the crate's own NEEDSWORK)"],
